@@ -416,7 +416,7 @@ func eachCase(c *fw.Ctx, which map[string]bool, f func(sc streamCase)) {
 		}
 		rec("", maxLen)
 		// JSON-RPC ids: method names and paths whose concatenation could coincide
-		for _, pr := range [][4]string{{"a b", "/c", "a", "/b /c"}, {"m", "/x y", "m /x", "/y"}, {"a", "/b", "a", "/b"}, {"GET", "/x", "get", "/x"}} {
+		for _, pr := range [][4]string{{"a /b", "/c", "a", "/b /c"}, {"m", "/x /y", "m /x", "/y"}, {"a", "/b", "a", "/b"}, {"GET", "/x", "get", "/x"}} {
 			single("names", "rpc-id-collision", fmt.Sprintf("JSIGHT 0.3\nURL \"%s\"\n  Protocol json-rpc-2.0\n  Method \"%s\"\nURL \"%s\"\n  Protocol json-rpc-2.0\n  Method \"%s\"\n", pr[1], pr[0], pr[3], pr[2]))
 		}
 	}
